@@ -93,7 +93,7 @@ func isEpochMismatch(err error) bool {
 	return err != nil && strings.Contains(strings.ToLower(err.Error()), "epoch")
 }
 
-func (w *c10Worker) run(res *runner.CaseResult, idx int, seed int64, withDedup bool) {
+func (w *c10Worker) run(res *runner.CaseResult, idx int, seed int64, withDedup bool, pinned *sim.History) {
 	rng := caseRng(seed^0xc10, idx)
 	g := sim.GenCfg{
 		N: 2 + rng.Intn(2), MaxReps: 4, Steps: 10 + rng.Intn(25), Profile: gen.DefaultProfile(),
@@ -104,6 +104,9 @@ func (w *c10Worker) run(res *runner.CaseResult, idx int, seed int64, withDedup b
 	// fence of recorded finding F-DEDUP-HLL-OPS: no dedup counters in compacted documents
 	g.Profile.NoDedup = !withDedup
 	cfg := sim.WorldCfg{Snap: []int64{0, 5}[rng.Intn(2)]}
+	if pinned != nil {
+		cfg = pinned.Cfg
+	}
 	proj, err := w.project(cfg.Snap)
 	if err != nil {
 		res.Inconclusive = err.Error()
@@ -111,7 +114,14 @@ func (w *c10Worker) run(res *runner.CaseResult, idx int, seed int64, withDedup b
 	}
 	world := sim.NewWorld(w.env, proj, cfg, fmt.Sprintf("c10-%d", idx))
 	world.OnQuiesce = func(*sim.World, []*replica.Replica) {}
-	h := world.RunGenerated(caseRng(seed, idx), g)
+	var h sim.History
+	if pinned != nil {
+		// pinned witnesses and replays run the recorded history, never a regenerated one
+		h = *pinned
+		world.RunHistory(h)
+	} else {
+		h = world.RunGenerated(caseRng(seed, idx), g)
+	}
 	res.Hash = runner.HashOf(h.Steps)
 	editors, applied := historyStats(res, world, h)
 	if len(world.Fail) > 0 {
@@ -122,7 +132,7 @@ func (w *c10Worker) run(res *runner.CaseResult, idx int, seed int64, withDedup b
 	if len(att) < 2 {
 		return
 	}
-	replay := map[string]any{"seed": seed, "idx": idx, "dedup": withDedup}
+	replay := map[string]any{"seed": seed, "idx": idx, "dedup": withDedup, "h": h}
 	viol := func(kind, detail string) { res.Violate(kind, detail, "", replay) }
 	before := canonDoc(att[0].Doc)
 	for _, r := range att[1:] {
@@ -306,18 +316,22 @@ func (w *c10Worker) run(res *runner.CaseResult, idx int, seed int64, withDedup b
 
 func (w *c10Worker) Run(idx int) runner.CaseResult {
 	res := runner.CaseResult{Case: fmt.Sprintf("c10-%d", idx)}
-	w.run(&res, idx, w.seed, false)
+	w.run(&res, idx, w.seed, false, nil)
 	return res
 }
 
 func (w *c10Worker) Replay(data json.RawMessage) runner.CaseResult {
 	res := runner.CaseResult{Case: "replay"}
 	var rp struct {
-		Seed  int64 `json:"seed"`
-		Idx   int   `json:"idx"`
-		Dedup bool  `json:"dedup"`
+		Seed  int64        `json:"seed"`
+		Idx   int          `json:"idx"`
+		Dedup bool         `json:"dedup"`
+		H     *sim.History `json:"h"`
 	}
 	_ = json.Unmarshal(data, &rp)
-	w.run(&res, rp.Idx, rp.Seed, rp.Dedup)
+	if rp.H != nil && len(rp.H.Steps) == 0 {
+		rp.H = nil
+	}
+	w.run(&res, rp.Idx, rp.Seed, rp.Dedup, rp.H)
 	return res
 }
